@@ -113,7 +113,13 @@ pub enum LenMode {
     /// long edges that make a lot of progress next to short last hops, where a heuristic evaluated at the wrong
     /// end of an edge changes the answer
     LineMetric,
+    /// the same uneven line with lengths ceil(haversine * SHORT_FACTORS[l]): some edges are recorded shorter than the
+    /// straight line between their end points, so the A* estimate is neither admissible nor consistent even with weight
+    /// factor 1 (length columns of real networks contain such rows)
+    LineShort,
 }
+
+pub const SHORT_FACTORS: [f64; 3] = [0.25, 1.0, 3.0];
 
 pub const LINE_FACTORS: [f64; 3] = [1.0, 1.1, 3.0];
 
@@ -175,6 +181,11 @@ impl GenSpec {
                 let xy = line_xy(self.n);
                 let h = hav_xy(xy[pair.0], xy[pair.1]);
                 (h * LINE_FACTORS[l]).ceil().max(1.0) + 1.0
+            }
+            LenMode::LineShort => {
+                let xy = line_xy(self.n);
+                let h = hav_xy(xy[pair.0], xy[pair.1]);
+                (h * SHORT_FACTORS[l]).ceil().max(1.0)
             }
         }
     }
@@ -242,7 +253,7 @@ pub fn for_each_in_shard(
             .enumerate()
             .map(|(i, (p, l))| (pairs[*p].0, pairs[*p].1, spec.len_of(i, pairs[*p], *l)))
             .collect();
-        f(&Net { n: spec.n, edges, xy: if spec.mode == LenMode::LineMetric { Some(line_xy(spec.n)) } else { None } });
+        f(&Net { n: spec.n, edges, xy: if spec.mode == LenMode::LineMetric || spec.mode == LenMode::LineShort { Some(line_xy(spec.n)) } else { None } });
     }
     fn rec(
         spec: &GenSpec,
